@@ -92,33 +92,61 @@ def _unescape_string(units):
     return out
 
 
+def lex_quoted(units, delim, what):
+    """IRLexer.quotedLiteral(delim, what) at units[0] == delim -> (value units, number of units consumed)"""
+    i, raw = 1, []
+    while True:
+        if i >= len(units):
+            raise Reject(f'unterminated {what}')
+        c = units[i]
+        i += 1
+        if c == delim:
+            break
+        raw.append(c)
+        if c == 0x5c:
+            if i >= len(units):
+                raise Reject(f'unterminated {what}')
+            d = units[i]
+            if d > 0x7f or chr(d) not in ESCAPE_CHARS:
+                raise Reject(f'invalid escape character in {what}: {chr(d)!r}')
+            raw.append(d)
+            i += 1
+    return _unescape_string(raw), i
+
+
 def lex_identifier(units, tables):
     """-> (value units, number of units consumed); raises Reject when neither alternative matches"""
     if units and units[0] == 0x60:                    # quotedLiteral('`')
-        i, raw = 1, []
-        while True:
-            if i >= len(units):
-                raise Reject('unterminated backtick identifier')
-            c = units[i]
-            i += 1
-            if c == 0x60:
-                break
-            raw.append(c)
-            if c == 0x5c:
-                if i >= len(units):
-                    raise Reject('unterminated backtick identifier')
-                d = units[i]
-                if d > 0x7f or chr(d) not in ESCAPE_CHARS:
-                    raise Reject(f'invalid escape character in backtick identifier: {chr(d)!r}')
-                raw.append(d)
-                i += 1
-        return _unescape_string(raw), i
+        return lex_quoted(units, 0x60, 'backtick identifier')
     if units and tables.is_start(units[0]):          # JavaTokenParsers.ident
         i = 1
         while i < len(units) and tables.is_part(units[i]):
             i += 1
         return units[:i], i
     raise Reject('not an identifier start')
+
+
+def lex_string(units):
+    """IRLexer.stringLiteral = quotedLiteral('"') | quotedLiteral("'")"""
+    if units and units[0] in (0x22, 0x27):
+        return lex_quoted(units, units[0], 'string literal')
+    raise Reject('not a string literal')
+
+
+def engine_reads_at(text, offset, name, tables, kind='identifier'):
+    """Within the IR text `text`, does the token starting at character `offset` lex (as an identifier / a string literal) to
+    exactly `name`, ending where a delimiter (white space, bracket) follows?  -> (ok, reason)"""
+    units = utf16_units(text[offset:])
+    try:
+        val, used = lex_identifier(units, tables) if kind == 'identifier' else lex_string(units)
+    except Reject as e:
+        return False, str(e)
+    if val != utf16_units(name):
+        got = bytes(b for u in val for b in (u & 0xff, u >> 8)).decode('utf-16-le', 'surrogatepass')
+        return False, f'token value {got!r} differs from the name'
+    if used < len(units) and kind == 'identifier' and tables.is_part(units[used]):
+        return False, 'identifier token does not end where the emitted name ends'
+    return True, ''
 
 
 def engine_reads(emitted, name, tables, delim=':'):
